@@ -32,6 +32,7 @@ def run(c):
     r4(c)
     r5(c)
     r6(c)
+    r7(c)
 
 
 # ------------------------------------------------------------------ regex helpers
@@ -655,9 +656,9 @@ def r4(c):
 
 
 # ------------------------------------------------------------------ R5
-def r5(c):
+def r5(c, rid="C07.R5"):
     repo = c.repo
-    c.rule("C07.R5", "match_deploy_rule returns a rule only when depth == len(cmd_path) - 1; otherwise the search continues in that rule's children; the fallback is the "
+    c.rule(rid, "match_deploy_rule returns a rule only when depth == len(cmd_path) - 1; otherwise the search continues in that rule's children; the fallback is the "
                      "default rule with DEFAULT_TIMEOUT")
     m = repo.module("annet.rulebook.deploying")
     fn = repo.func("annet.rulebook.deploying", "match_deploy_rule")
@@ -677,12 +678,23 @@ def r5(c):
                     depth_atoms.append(x)
         ok = bool(depth_atoms) and any(G.implies(f, G.formula(x, G.GuardEnv())) for x in depth_atoms)
         ok = ok and any(".match(row)" in a for a in G.atoms(f))
-    c.check("C07.R5", ok, repo.loc(m, inner[0] if inner else fn), "match_deploy_rule/return-depth", "a rule is returned other than for the last element of the command path after matching every level", key_text="depth")
+    c.check(rid, ok, repo.loc(m, inner[0] if inner else fn), "match_deploy_rule/return-depth", "a rule is returned other than for the last element of the command path after matching every level", key_text="depth")
     desc = [n for n in walk_no_nested(fn) if isinstance(n, ast.Assign) and norm(n.targets[0]) == "rules" and "children" in norm(n.value)]
-    c.check("C07.R5", bool(desc), repo.loc(m, fn), "match_deploy_rule/descend", "the search does not descend into the matched rule's children", key_text="descend")
+    c.check(rid, bool(desc), repo.loc(m, fn), "match_deploy_rule/descend", "the search does not descend into the matched rule's children", key_text="descend")
+    if desc and ok:
+        # the descent is unconditional for a rule matched above the last element: what follows a childless match is the default rule, not the siblings of the match
+        fd = gm.formula(desc[0], alias=True)
+        fr = gm.formula(inner[0], alias=True)
+        depth_f = [G.formula(x, G.GuardEnv()) for x in depth_atoms]
+        # fd must be: (conditions of the return, except the depth test) and not depth test
+        base = G.And(*[g for g in (fr[1:] if fr[0] == "and" else [fr]) if g not in depth_f])
+        want_desc = G.And(base, G.Not(depth_f[0])) if depth_f else base
+        c.check(rid, G.equivalent(fd, want_desc), repo.loc(m, desc[0]), "match_deploy_rule/descend-guard", f"the search descends under {G.show(fd)}; expected: whenever the rule matched "
+                "above the last element of the path — with an extra condition (e.g. only when the rule has children) commands inside a block matched by a childless rule are "
+                "matched against that rule's siblings instead of getting the defaults", key_text="descend-guard")
     dflt = [r for r in rets if isinstance(r.value, ast.Dict)]
     ok = bool(dflt) and "DEFAULT_TIMEOUT" in norm(dflt[0].value) and dflt[0] is [st for st in fn.body if not isinstance(st, ast.Pass)][-1]
-    c.check("C07.R5", ok, repo.loc(m, fn), "match_deploy_rule/default", "the fallback is not the default rule with DEFAULT_TIMEOUT", key_text="default")
+    c.check(rid, ok, repo.loc(m, fn), "match_deploy_rule/default", "the fallback is not the default rule with DEFAULT_TIMEOUT", key_text="default")
 
 
 # ------------------------------------------------------------------ R6
@@ -730,3 +742,49 @@ def r6(c):
             ok = flat(d)[:2] == lead or flat(d) == flat("%")
         c.check("C07.R6", ok, repo.loc(m, node), "_parse_raw_rule/row-cut", f"the row is cut at {d!r} ({kind}) while parameters are recognised after any blank (`\\s%`): a parameter written after a tab or a "
                 "continuation line is parsed as a parameter AND stays in the row text, so the rule's regexp demands the literal text `%name` and matches nothing", key_text="row-cut")
+
+
+# ------------------------------------------------------------------ R7
+CASE_CHANGERS = ("lower", "upper", "casefold", "title", "capitalize", "swapcase", "strip", "lstrip", "rstrip", "replace", "translate", "expandtabs")
+
+
+def r7(c):
+    """all rulebook kinds share one compiler only if they hand it the rule's words as written"""
+    repo = c.repo
+    c.rule("C07.R7", "every compiler of a rulebook kind (patching._attrs_to_regexp, ordering._compile_ordering, acl._compile_acl, deploying, implicit.compile_tree) hands "
+                     "compile_row_regexp the row text of the parsed rule as it is — attrs['row'], or its negated form built by the reverse-form helper — without case or "
+                     "whitespace rewriting, and does not overwrite attrs['row']: regex escapes such as \\S / \\D and the literal words copied into the removal template are "
+                     "case-sensitive even when the match itself is not (%ignore_case is a flag, not a rewrite)")
+    n = 0
+    for m, q, fn in repo.all_functions(canon=True):
+        if not m.name.startswith("annet"):
+            continue
+        calls = [x for x in calls_in(fn) if call_name(x).split(".")[-1] == "compile_row_regexp" and x.args and repo.enclosing_func(x) in (fn, getattr(fn, "_canon_of", None), None)]
+        if not calls or q == "compile_row_regexp":
+            continue
+        pv = Provenance(fn)
+        stores = [st for st in walk_no_nested(fn) if isinstance(st, (ast.Assign, ast.AugAssign)) and any(
+            isinstance(t, ast.Subscript) and isinstance(t.slice, ast.Constant) and t.slice.value == "row" for t in (st.targets if isinstance(st, ast.Assign) else [st.target]))]
+        for x in calls:
+            n += 1
+            arg = x.args[0]
+            bad = None
+            seen_ = set()
+            todo = [arg]
+            while todo:
+                e = todo.pop()
+                if id(e) in seen_:
+                    continue
+                seen_.add(id(e))
+                for y in ast.walk(e):
+                    if isinstance(y, ast.Call) and isinstance(y.func, ast.Attribute) and y.func.attr in CASE_CHANGERS:
+                        bad = y
+                    if isinstance(y, ast.Name):
+                        for d in pv.rd.defs(y):
+                            if d.value is not None and d.kind in ("assign", "aug"):
+                                todo.append(d.value)
+            if stores and bad is None:
+                bad = stores[0]
+            c.check("C07.R7", bad is None, repo.loc(m, x), f"{m.name.split('.', 1)[-1]}:{q}/row-as-written", f"the row handed to compile_row_regexp is rewritten by `{norm(bad)[:60] if bad is not None else ''}`: "
+                    "upper-case regex escapes (\\S, \\D, \\W) change their meaning and the removal command is built from the rewritten words", key_text="row-rewritten")
+    c.floor("C07.R7", "compile_row_regexp call sites", n, 6)
